@@ -64,6 +64,27 @@ def gen(tier, rng):
         add_pair(out, m, data, fmt % "skipone skipone", fmt % "tov G tov G")
         out.append("run %s slice %s %s" % (m, hx(data), fmt % ("skipopt R%d all" % rng.randrange(0, 4))))
         out.append("run %s slice %s %s" % (m, hx(data), fmt % "skipopt O all"))
+    # lying lengths that keep value boundaries aligned: a child's definite length larger/smaller than what its
+    # parent has left, the parent's larger/smaller than its content, at nesting depth 2 and 3, followed by more values
+    unit = b"\x02\x01\x07"
+    for m in ("ber", "der"):
+        for i in range(0, 3):
+            for j in range(0, 3):
+                for t in range(0, 3):
+                    for da in (-3, -1, 0, 1, 3, 6):
+                        for db in (-3, -1, 0, 1, 3, 6):
+                            lc, lp = 3 * i, 2 + 3 * i + 3 * j
+                            if lc + da < 0 or lp + db < 0 or lc + da > 127 or lp + db > 127:
+                                continue
+                            child = b"\x30" + bytes([lc + da]) + unit * i
+                            data = b"\x30" + bytes([lp + db]) + child + unit * j + unit * t
+                            add_pair(out, m, data, "skipone", "tov G")
+                            add_pair(out, m, data, "skipall", "all")
+                            add_pair(out, m, data, "tc { skipone skipall }", "tc { tov G all }")
+                            add_pair(out, m, data, "tc { tc { skipall } skipall }", "tc { tc { all } all }")
+                            deep = b"\x30" + bytes([min(len(data), 127)]) + data
+                            add_pair(out, m, deep, "skipone", "tov G")
+                            add_pair(out, m, deep, "tc { skipone skipall }", "tc { tov G all }")
     return out
 
 def status(ans):
